@@ -143,7 +143,7 @@ def main(argv=None):
             discards[why] += 1
             continue
         frng = st["fault"]
-        plan = [(case, dict(sched))]
+        plan = [(case, dict(sched), want)]
         base_case = case
         r = frng.random()
         want_fault = r < P.fault_rate
@@ -153,16 +153,16 @@ def main(argv=None):
             # step is drawn without knowing the graph size and may lie beyond it (then nothing fires)
             k = int(frng.expovariate(1 / 10.0))
             kind = frng.choice(["abort_before", "abort_after"])
-            plan.insert(0, (case, dict(sched, faults=[{"kind": kind, "step": k}], blind=True)))
+            plan.insert(0, (case, dict(sched, faults=[{"kind": kind, "step": k}], blind=True), want))
         want_probe = (not want_fault) and r < P.fault_rate + 0.04
         for rk, rv in P.reach(case).items():
             if rv:
                 reach[rk] += 1
         run_no = 0
         while plan:
-            case, s = plan.pop(0)
+            case, s, want_ = plan.pop(0)
             probe = bool(s.get("reexec_rate"))
-            o = run_case(case, s, P.compare, want=want, m1=True)
+            o = run_case(case, s, P.compare, want=want_, m1=True)
             if not s.get("blind"):
                 run_no += 1
             sim = o.get("sim")
@@ -251,22 +251,29 @@ def main(argv=None):
             if run_no == 1 and want_fault and sim.step > 0:
                 k = frng.randrange(sim.step)
                 kind = frng.choice(["abort_before", "abort_after"])
-                plan.append((case, dict(sched, faults=[{"kind": kind, "step": k}])))
+                plan.append((case, dict(sched, faults=[{"kind": kind, "step": k}]), want_))
             elif run_no == 1 and want_probe:
-                plan.append((case, dict(sched, reexec_rate=0.3)))
+                plan.append((case, dict(sched, reexec_rate=0.3), want_))
             if sim.mutations and not s.get("targeted") and o["status"] == "ok":
                 # M1 fired: a task changed one of its arguments.  Not a violation by itself; steer the
                 # search - the mutating tasks before, then after, every other consumer of that object
                 keys = sorted({m["key"] for m in sim.mutations})
                 for mode in ("first", "last"):
                     plan.append((case, dict(s, policy="prefer", policy_arg={"keys": keys, "mode": mode},
-                                            targeted=True, faults=[], reexec_rate=0.0)))
+                                            targeted=True, faults=[], reexec_rate=0.0), want_))
                 reach["targeted_followups"] += 2
             if run_no == 1 and P.variants is not None:
-                for vn, vc in enumerate(P.variants(base_case, st)):
+                for vn, (vc, own_ref) in enumerate(P.variants(base_case, st)):
                     pol, arg = draw_policy(st["policy-variant%d" % vn])
+                    vwant = want
+                    if own_ref:
+                        vwant, vwhy = numpy_reference(vc)
+                        if vwhy:
+                            discards["variant_" + vwhy] += 1
+                            continue
+                        reach["variant_other_raster_same_shape_and_chunks"] += 1
                     plan.append((vc, {"seed": util.derive_seed(a.seed, a.prop, i, "variant", vn),
-                                      "policy": pol, "policy_arg": arg}))
+                                      "policy": pol, "policy_arg": arg}, vwant))
     emit({"t": "summary", "worker": a.worker, "counts": dict(C), "by_op": dict(by_op),
           "by_policy": dict(by_policy), "fired": dict(fired), "discards": dict(discards),
           "reach": dict(reach), "notes": dict(notes), "distinct_nontrivial": len(distinct),
